@@ -1016,19 +1016,27 @@ def _rebin_cases(draw, tier):
     # a second, finer histogram whose classes lie inside the classes of the first one: what combine_histogram() returns for
     # histograms of different resolution (nested / overlapping classes in one histogram)
     nested = None
-    if dims == 1 and not gaps and draw(st.integers(0, 2)) == 0:
+    if dims == 1 and not gaps and draw(st.integers(0, 1)) == 0:
         e = src[0]
         fine = list(e)
         for a, b in zip(e[:-1], e[1:]):
             for _ in range(draw(st.integers(0, 2))):
                 fine.append(a + (b - a) * draw(st.sampled_from([0.5, 0.25, 0.75, 0.375])))
         fine = sorted(set(fine))
-        i = draw(st.integers(0, len(fine) - 2))
-        j = draw(st.integers(i + 1, len(fine) - 1))
-        fine = fine[i:j + 1]
-        fcounts = draw(st.lists(st.one_of(st.sampled_from([0.0, 1.0, 10.0]), st.integers(0, 10**6).map(float)),
-                               min_size=len(fine) - 1, max_size=len(fine) - 1))
-        nested = {"edges": fine, "counts": fcounts, "via": draw(st.sampled_from(["combine", "combine", "concat"]))}
+        mode = draw(st.sampled_from(["finer", "coarser", "coarser"])) if len(e) >= 4 else "finer"
+        if mode == "coarser":
+            # classes of the second histogram span several classes of the first one, e.g. (0, 4] over (1, 2], (2, 3]
+            i = draw(st.integers(0, len(e) - 3))
+            j = draw(st.integers(i + 2, len(e) - 1))
+            fine = [e[i], e[j]] + ([e[-1]] if j < len(e) - 1 and draw(st.booleans()) else [])
+        else:
+            i = draw(st.integers(0, len(fine) - 2))
+            j = draw(st.integers(i + 1, len(fine) - 1))
+            fine = fine[i:j + 1]
+        pos = st.one_of(st.sampled_from([1.0, 10.0, 3.0]), st.integers(1, 10**4).map(float))
+        fcounts = draw(st.lists(pos, min_size=len(fine) - 1, max_size=len(fine) - 1))
+        counts = [c if c > 0 or draw(st.integers(0, 3)) == 0 else draw(pos) for c in counts]      # mostly occupied classes
+        nested = {"edges": fine, "counts": fcounts, "via": draw(st.sampled_from(["combine", "combine", "concat"])), "mode": mode}
     return {"dims": dims, "source": src, "target1": tg1, "target2": tg2, "kinds": kinds, "counts": counts, "nested": nested,
             "target_level_order": draw(st.sampled_from(["same", "swapped", "swapped"])), "repeat": draw(st.booleans()), "int_counts": int_counts,
             "closed": draw(st.sampled_from(["right", "right", "left"])), "nan_default": draw(st.sampled_from([False, False, True])),
